@@ -1148,6 +1148,11 @@ func (n *MacroNode) CallMacro(w io.Writer, ctx *RenderContext, args ...interface
 	macroCtx := NewRenderContext(ctx.env, nil, ctx.engine)
 	macroCtx.sandboxed = ctx.sandboxed // macros called from a sandbox run sandboxed
 	macroCtx.lastLoadedTemplate = ctx.lastLoadedTemplate
+
+	// An imported macro sees the macros of the template that defines it
+	for name, sibling := range ctx.macroScope(n) {
+		macroCtx.macros[name] = sibling
+	}
 	macroCtx.parent = ctx
 
 	// Ensure context is released even in error paths
@@ -1280,6 +1285,7 @@ func (n *ImportNode) Render(w io.Writer, ctx *RenderContext) error {
 	for name, macro := range importCtx.macros {
 		macros[name] = macro
 	}
+	ctx.rememberMacroScope(importCtx.macros)
 
 	// Set the module variable in the current context
 	ctx.SetVariable(n.module, macros)
@@ -1368,6 +1374,8 @@ func (n *FromImportNode) Render(w io.Writer, ctx *RenderContext) error {
 	if err != nil {
 		return err
 	}
+
+	ctx.rememberMacroScope(importCtx.macros)
 
 	// Copy selected macros from import context to the current context
 	for _, macroName := range n.macros {
